@@ -309,8 +309,8 @@ class NbrFilter(Sub):
                     "pdim_given": True if extra else draw(st.booleans()),
                     "n_out": draw(st.integers(0, max(0, N // 3))), "out_mode": draw(st.sampled_from(("random", "random", "first", "last"))),
                     "ord": draw(st.sampled_from(ORDS)), "ord_given": draw(st.booleans()),
-                    "nbr": draw(st.one_of(st.integers(0, min(N, 4)), st.integers(0, N))),
-                    "rmode": draw(st.sampled_from(("kth", "kth", "kth", "pair", "pair", "below", "above"))),
+                    "nbr": draw(st.one_of(st.integers(1, max(1, min(N - 1, 4))), st.integers(1, max(1, N - 1)), st.integers(0, N))),
+                    "rmode": draw(st.sampled_from(("kth", "kth", "kth", "kth", "pair", "pair", "below", "above"))),
                     "q": draw(st.floats(0, 1)), "grid": draw(st.sampled_from((False, False, False, True))),
                     "dtype": draw(_dtype), "seed": draw(_seed)}
         return s()
@@ -372,4 +372,643 @@ class NbrFilter(Sub):
             yield dict(case, nbr=case["nbr"] - 1)
 
 
-SUBS = [Knn(), NbrFilter()]
+# =====================================================================================================
+def make_voxel_cloud(rs, case):
+    """(points (N, vdim+extra) exactly representable in dtype, constructed cell of every point or None)"""
+    N, vdim, extra, dtype, voxel = case["N"], len(case["voxel"]), case["extra"], case["dtype"], np.array(case["voxel"], dtype=np.float64)
+    if case["grid"]:
+        G = max(2, int(round(1 + (2.0 * N) ** (1.0 / vdim))))
+        coords = rs.randint(-G, G + 1, size=(N, vdim)).astype(np.float64) * np.where(voxel < 1, voxel, 1.0)
+        cells = None
+    else:
+        M = max(1, min(case["M"], N))
+        G = max(2, int(math.ceil(M ** (1.0 / vdim))) + rs.randint(0, 4))
+        occ = {(0,) * vdim}
+        while len(occ) < M:
+            occ.add(tuple(int(x) for x in rs.randint(0, G, size=vdim)))
+        occ = [(0,) * vdim] + sorted(occ - {(0,) * vdim}, key=lambda c: rs.rand())
+        assign = np.concatenate([np.arange(M), rs.randint(0, M, size=N - M)]).astype(int)
+        cells = np.array(occ, dtype=np.int64).reshape(M, vdim)[assign]
+        frac = rs.uniform(0.1, 0.9, size=(N, vdim))
+        frac[0] = 0.0                                         # the anchor: exactly the minimum corner
+        pmin = voxel * rs.uniform(-50, 50, size=vdim)
+        coords = pmin + voxel * (cells + frac)
+        coords[0] = pmin
+    feats = rs.randn(N, extra) * 10.0 ** rs.uniform(-1, 2)
+    pts = np.concatenate([coords, feats], 1)
+    order = rs.permutation(N)
+    return _rnd(pts[order], dtype), (None if cells is None else cells[order])
+
+
+class Voxel(Sub):
+    name = "voxel_filter"
+    n = {"quick": 3200, "thorough": 80000}
+
+    def strategy(self, tier):
+        @st.composite
+        def s(draw):
+            N = draw(_sizes(tier))
+            grid = draw(st.sampled_from((False, False, True)))
+            vdim = draw(st.integers(1, 6 if not grid else 4))
+            if grid:
+                voxel = [draw(st.sampled_from((1.0, 1.0, 2.0, 3.0, 4.0, 5.0, 0.5, 0.25))) for _ in range(vdim)]
+            else:
+                voxel = [float("%.6g" % (10.0 ** draw(st.floats(-2, 2)))) for _ in range(vdim)]
+            return {"N": N, "M": draw(st.one_of(st.integers(1, 3), st.integers(1, N))), "voxel": voxel,
+                    "extra": draw(st.sampled_from((0, 0, 1, 2, 3))), "grid": grid, "random": draw(st.sampled_from((False, False, True))),
+                    "dtype": draw(_dtype), "seed": draw(_seed)}
+        return s()
+
+    def oracle(self, case, rec):
+        N, voxel, extra, dtype = case["N"], [float(v) for v in case["voxel"]], case["extra"], case["dtype"]
+        vdim, D = len(voxel), len(voxel) + extra
+        rs = np.random.RandomState(case["seed"])
+        pts, cells = make_voxel_cloud(rs, case)
+        vcell = C.voxel_cells(pts[:, :vdim], voxel)
+        if cells is not None and not np.array_equal(vcell, cells):
+            raise AssertionError("harness: constructed voxel cells disagree with floor((p-min)/v)")
+        groups = C.voxel_groups(pts[:, :vdim], voxel)
+        pi = _perm(rs, N)
+        eps = _eps(dtype)
+        shared = max(len(g) for g in groups.values())
+        rec.label(dtype, "grid" if case["grid"] else "real", "random" if case["random"] else "centroid",
+                  "one_cell" if len(groups) == 1 else ("all_single" if shared == 1 else "shared"), "N=1" if N == 1 else "N>1")
+        if shared >= 2:
+            rec.nt(("vox", dtype, case["grid"], case["random"], vdim, extra, _sizeclass(N), _sizeclass(len(groups)), _sizeclass(shared)))
+        torch.manual_seed(case["seed"])
+        X = _t(pts, dtype)
+        with rec.sut("voxel_filter"):
+            if case["random"]:
+                y1, y2 = pp.voxel_filter(X, voxel, random=True), pp.voxel_filter(_t(pts[pi], dtype), voxel, random=True)
+            elif rs.rand() < 0.5:
+                y1, y2 = pp.voxel_filter(X, voxel), pp.voxel_filter(_t(pts[pi], dtype), voxel)
+            else:
+                y1, y2 = pp.voxel_filter(X, voxel, random=False), pp.voxel_filter(_t(pts[pi], dtype), voxel, False)
+        pmin = pts[:, :vdim].min(0)
+        gkeys = list(groups)
+        gindex = {g: i for i, g in enumerate(gkeys)}
+        gmeans = np.array([pts[groups[g]].mean(0) for g in gkeys]).reshape(len(gkeys), D)
+        cents = {}
+        worst = 0.0
+        for tag, y in (("", y1), ("perm:", y2)):
+            if not rec.check(y.dim() == 2 and tuple(y.shape) == (len(groups), D) and y.dtype == tu.TD[dtype], "voxel:shape:" +
+                             ("random" if case["random"] else "centroid"), "%soutput shape %s for %d occupied voxels of a (%d,%d) cloud" % (
+                                 tag, tuple(y.shape), len(groups), N, D)):
+                return
+            Y = tu.npy(y)
+            seen = set()
+            for r in Y:
+                c = tuple(int(x) for x in np.floor((r[:vdim] - pmin) / np.array(voxel)))
+                if case["random"]:
+                    mem = groups.get(c, [])
+                    if not rec.check(any(np.array_equal(r, pts[i]) for i in mem), "voxel:member", lambda: "%soutput row %s is not (bitwise) "
+                                     "a point of the cloud lying in its voxel %s" % (tag, r.tolist(), c)):
+                        return
+                else:
+                    # a centroid of integer-grid points may lie on a face; identify the cell by the nearest centroid instead
+                    if case["grid"] or c not in groups:
+                        c = gkeys[int(np.argmin(np.abs(gmeans - r).max(1)))]
+                    mem = groups[c]
+                    mean = gmeans[gindex[c]]
+                    tol = 4 * (len(mem) + 2) * eps * np.maximum(np.abs(pts[mem]).max(0), 1e-300)
+                    err = np.abs(r - mean)
+                    worst = max(worst, float((err / tol).max()))
+                    if not rec.check(np.all(err <= tol), "voxel:centroid", lambda: "%svoxel %s holds %d points with centroid %s, output "
+                                     "row is %s" % (tag, c, len(mem), mean.tolist(), r.tolist())):
+                        return
+                if not rec.check(c not in seen, "voxel:cell_twice", "%svoxel %s is represented by two output rows" % (tag, c)):
+                    return
+                seen.add(c)
+            if not rec.check(len(seen) == len(groups), "voxel:cell_missing", tag + "an occupied voxel has no output row"):
+                return
+            cents[tag] = Y
+        if not case["random"]:
+            a, b = _sorted_rows(cents[""]), _sorted_rows(cents["perm:"])
+            tol = 8 * (shared + 2) * eps * np.maximum(np.abs(pts).max(0), 1e-300)
+            rec.check(np.all(np.abs(a - b) <= tol), "voxel:equivariance", "centroids for the permuted cloud differ as a set of rows")
+            rec.notes["voxel_err/tol"] = worst
+
+    def simplify(self, case):
+        yield from _shrink_common(case)
+        if case["M"] > 1:
+            yield dict(case, M=1)
+            yield dict(case, M=case["M"] // 2)
+        if len(case["voxel"]) > 1:
+            yield dict(case, voxel=case["voxel"][:-1])
+        if any(v != 1.0 for v in case["voxel"]):
+            yield dict(case, voxel=[1.0] * len(case["voxel"]))
+
+
+# =====================================================================================================
+def _match_rows(Y, cand, tol):
+    """greedy matching of output rows to reference rows (multiset equality within tol); True / False"""
+    if Y.shape[0] != cand.shape[0]:
+        return False
+    free = np.ones(cand.shape[0], bool)
+    for r in Y:
+        hit = np.nonzero(free & np.all(np.abs(cand - r) <= tol, axis=1))[0]
+        if hit.size == 0:
+            return False
+        free[hit[0]] = False
+    return True
+
+
+class KnnFilter(Sub):
+    name = "knn_filter"
+    n = {"quick": 4000, "thorough": 100000}
+
+    def strategy(self, tier):
+        @st.composite
+        def s(draw):
+            N = max(2, draw(_sizes(tier)))
+            extra = draw(st.sampled_from((0, 0, 1, 2, 3)))
+            rmode = draw(st.sampled_from(("none", "none", "none", "kth", "kth", "kth", "kth", "kth", "kth", "pair", "pair", "below", "above")))
+            batch = draw(gen.lshape(max_rank=2, extents=(1, 2, 3), max_items=6)) if rmode == "none" else []
+            if N * N * max(1, int(np.prod(batch))) > 100000:
+                batch = []
+            return {"N": N, "dim": draw(st.integers(1, 6)), "extra": extra, "pdim_given": True if extra else draw(st.booleans()),
+                    "k": draw(st.one_of(st.integers(min(2, N - 1), min(N - 1, 5)), st.integers(1, N - 1))),
+                    "n_out": draw(st.integers(0, max(0, N // 3))), "out_mode": draw(st.sampled_from(("random", "random", "first", "last"))),
+                    "ord": draw(st.sampled_from(ORDS)), "ord_given": draw(st.booleans()), "rmode": rmode, "q": draw(st.floats(0, 1)),
+                    "batch": batch, "dtype": draw(_dtype), "seed": draw(_seed)}
+        return s()
+
+    def oracle(self, case, rec):
+        N, dim, extra, dtype = max(2, case["N"]), case["dim"], case["extra"], case["dtype"]
+        k = max(1, min(case["k"], N - 1))
+        D = dim + extra
+        o = C.ord_of(case["ord"])
+        batch = list(case["batch"]) if case["rmode"] == "none" else []
+        B = int(np.prod(batch)) if batch else 1
+        rs = np.random.RandomState(case["seed"])
+        clouds = [make_cloud(rs, N, dim, extra, case["n_out"], case["out_mode"], dtype)[0] for _ in range(B)]
+        pts = np.stack(clouds, 0)
+        rel = _rel(dtype, dim)
+        eps = _eps(dtype)
+        radius = None
+        if case["rmode"] != "none":
+            d = C.pdist(pts[0][:, :dim], pts[0][:, :dim], o)
+            radius = pick_radius(d, k, case["rmode"], case["q"], rel)
+            if not C.radius_is_safe(d, radius, rel):
+                rec.discard_case("no safe radius")
+        pi = _perm(rs, N)
+        kw = {}
+        if case["pdim_given"] or extra:
+            kw["pdim"] = dim
+        if o != 2 or case["ord_given"]:
+            kw["ord"] = o
+        if radius is not None:
+            kw["radius"] = radius
+        refs = [C.knn_filter(pts[b], k, dim, radius, o, 2 * rel) for b in range(B)]
+        kept = int(refs[0]["mask"].sum())
+        prefix = _prefix_mask(refs[0]["mask"])
+        state = "noradius" if radius is None else ("none" if kept == 0 else "all" if kept == N else ("few" if kept < k + 1 else "some"))
+        rec.label("ord" + case["ord"], dtype, "rank%d" % len(batch), "kept_" + state, "k>=2" if k >= 2 else "k=1",
+                  "removed_not_last" if not prefix else "removed_last_or_none")
+        if k >= 2 and (radius is None or not prefix):
+            rec.nt(("knnf", case["ord"], dtype, len(batch), dim, extra, _sizeclass(N), _sizeclass(k), state, prefix))
+        Xs = pts.reshape(batch + [N, D])
+        with rec.sut("knn_filter"):
+            y1 = pp.knn_filter(_t(Xs, dtype), k, **kw)
+            y2 = pp.knn_filter(_t(pts[:, pi].reshape(batch + [N, D]), dtype), k, **kw)
+        worst = 0.0
+        outs = {}
+        for tag, y, perm in (("", y1, None), ("perm:", y2, pi)):
+            if not rec.check(tuple(y.shape) == tuple(batch + [kept, D]) and y.dtype == tu.TD[dtype], "knnf:shape:" + ("r" if radius is not None else "nr"),
+                             "%soutput shape %s, expected %s (k=%d radius=%r)" % (tag, tuple(y.shape), batch + [kept, D], k, radius)):
+                return
+            Y = tu.npy(y).reshape(B, kept, D)
+            outs[tag] = Y
+            for b in range(B):
+                rf = refs[b]
+                # rows of the reference in the order of the retained points of the (permuted) input
+                order = np.arange(kept)
+                if perm is not None:
+                    ret = np.nonzero(rf["mask"])[0]
+                    pos = {int(i): n for n, i in enumerate(ret)}
+                    order = np.array([pos[int(i)] for i in perm if rf["mask"][i]], dtype=int)
+                tol = 4 * (k + 3) * eps * np.maximum(np.abs(pts[b]).max(0), 1e-300)
+                verdict = {}
+                for rd in ("A", "B"):
+                    Rr = rf[rd]
+                    if Rr is None:
+                        continue
+                    Rr, okr = Rr[order], rf["ok" + rd][order]
+                    err = np.abs(Y[b] - Rr) / tol
+                    err[~okr] = 0.0                              # rows with a near tie at the k-th neighbour: not asserted
+                    inorder = bool(np.all(err <= 1.0))
+                    verdict[rd] = inorder or (bool(okr.all()) and _match_rows(Y[b], Rr, tol))
+                    if inorder and err.size and rd == "A":
+                        worst = max(worst, float(err.max()))
+                    if verdict[rd] and not inorder:
+                        rec.label("knnf:rows_not_in_input_order")
+                if rf["B"] is not None and kept and not np.all(np.abs(rf["A"] - rf["B"]) <= tol):
+                    rec.label("knnf:readings_differ")
+                    if verdict.get("B") and not verdict.get("A"):
+                        rec.label("knnf:matches_reading_B_only")
+                if not any(verdict.values()):
+                    ea = np.abs(Y[b] - rf["A"][order]) / tol
+                    i = int(np.argmax(ea.max(1)))
+                    rec.fail("knnf:rows:" + ("r" if radius is not None else "nr"), "%sk=%d radius=%r ord=%s N=%d kept=%d: output is neither "
+                             "'mean of the point and its k nearest among all points' nor '... among retained points'; e.g. output row %d = %s, "
+                             "reading A gives %s%s" % (tag, k, radius, case["ord"], N, kept, i, Y[b][i].tolist(), rf["A"][order][i].tolist(),
+                                                       "" if rf["B"] is None else ", reading B gives %s" % rf["B"][order][i].tolist()))
+                    return
+        if kept:
+            a = np.stack([_sorted_rows(x) for x in outs[""]])
+            bb = np.stack([_sorted_rows(x) for x in outs["perm:"]])
+            tol = 8 * (k + 3) * eps * np.maximum(np.abs(pts).max((0, 1)), 1e-300)
+            rec.check(np.all(np.abs(a - bb) <= tol), "knnf:equivariance", "outputs for the permuted cloud differ as a multiset of rows")
+        rec.notes["knnf_err/tol"] = worst
+
+    def simplify(self, case):
+        yield from _shrink_common(case, lo=2)
+        if case["k"] > 1:
+            yield dict(case, k=1)
+            yield dict(case, k=case["k"] - 1)
+        if case["n_out"]:
+            yield dict(case, n_out=case["n_out"] - 1)
+
+
+# =====================================================================================================
+class RandomFilter(Sub):
+    name = "random_filter"
+    n = {"quick": 1600, "thorough": 30000}
+
+    def strategy(self, tier):
+        @st.composite
+        def s(draw):
+            N = draw(_sizes(tier))
+            return {"N": N, "D": draw(st.integers(1, 9)), "num": draw(st.one_of(st.integers(0, N), st.integers(1, max(1, N - 1)))),
+                    "batch": draw(gen.lshape(max_rank=2, extents=(1, 2, 3), max_items=6)), "dtype": draw(_dtype), "seed": draw(_seed)}
+        return s()
+
+    def oracle(self, case, rec):
+        N, D, dtype, batch = case["N"], case["D"], case["dtype"], list(case["batch"])
+        num = min(case["num"], N)
+        B = int(np.prod(batch)) if batch else 1
+        rs = np.random.RandomState(case["seed"])
+        pts = _rnd(rs.randn(B, N, D) * 10.0 ** rs.uniform(-2, 2), dtype)
+        pi = _perm(rs, N)
+        rec.label(dtype, "rank%d" % len(batch), "num=0" if num == 0 else ("num=N" if num == N else "0<num<N"))
+        if 0 < num < N:
+            rec.nt(("rand", dtype, len(batch), _sizeclass(N), _sizeclass(num), D))
+        torch.manual_seed(case["seed"])
+        with rec.sut("random_filter"):
+            y1 = pp.random_filter(_t(pts.reshape(batch + [N, D]), dtype), num)
+            y2 = pp.random_filter(_t(pts[:, pi].reshape(batch + [N, D]), dtype), num)
+        for tag, y in (("", y1), ("perm:", y2)):
+            if not rec.check(tuple(y.shape) == tuple(batch + [num, D]) and y.dtype == tu.TD[dtype], "random:shape",
+                             "%soutput shape %s, expected %s" % (tag, tuple(y.shape), batch + [num, D])):
+                return
+            Y = tu.npy(y).reshape(B, num, D)
+            for b in range(B):
+                index = {_rowkey(r): i for i, r in enumerate(pts[b])}
+                if len(index) != N:
+                    rec.discard_case("input rows not unique")
+                got = [index.get(_rowkey(r)) for r in Y[b]]
+                if not rec.check(all(g is not None for g in got), "random:member", tag + "an output row is not an input row of its batch item"):
+                    return
+                if not rec.check(len(set(got)) == num, "random:distinct", lambda: tag + "input rows sampled more than once: indices %s" % got[:20]):
+                    return
+
+    def simplify(self, case):
+        yield from _shrink_common(case)
+        if case["num"] > 0:
+            yield dict(case, num=case["num"] - 1)
+
+
+# =====================================================================================================
+F15_KEY = "pixel2point_batched_intrinsics"
+
+
+def _f15_status():
+    """pixel2point cannot take batched intrinsics on the current tree (fx of shape (B,) is broadcast against
+    pixels[..., 0] of shape (B, N): RuntimeError, or silently wrong when N == B).  Until the lead has triaged it
+    (entry with this key in known_findings.json) those calls are not generated; once an entry exists they are
+    generated: status 'open' -> routed through KNOWN below, 'fixed' -> asserted like everything else."""
+    for k in load_known():
+        if k.get("key") == F15_KEY:
+            return k.get("status")
+    return None
+
+
+def _sub_batch(draw, full):
+    """a batch shape that broadcasts to `full`: full / unbatched / some extents set to 1"""
+    mode = draw(st.sampled_from(("full", "full", "none", "ones")))
+    if mode == "full" or not full:
+        return list(full)
+    if mode == "none":
+        return []
+    return [x if draw(st.booleans()) else 1 for x in full]
+
+
+class Camera(Sub):
+    name = "camera"
+    n = {"quick": 4000, "thorough": 100000}
+
+    def strategy(self, tier):
+        f15 = _f15_status()
+        sgn = st.sampled_from((1.0, 1.0, -1.0))
+
+        @st.composite
+        def s(draw):
+            full = draw(gen.lshape(max_rank=2, extents=(1, 2, 3), max_items=6))
+            kb = _sub_batch(draw, full)
+            kb_p2p = [] if (f15 is None and kb) else kb         # see _f15_status
+            return {"batch": full, "pb": _sub_batch(draw, full), "kb": kb, "kb_p2p": kb_p2p, "tb": _sub_batch(draw, full),
+                    "N": draw(st.one_of(st.integers(1, 4), st.integers(1, 40))),
+                    "fx": draw(sgn) * 10.0 ** draw(st.floats(-2, 4)), "fy": draw(sgn) * 10.0 ** draw(st.floats(-2, 4)),
+                    "cx": draw(st.one_of(st.just(0.0), st.floats(-1e3, 1e3))), "cy": draw(st.one_of(st.just(0.0), st.floats(-1e3, 1e3))),
+                    "zsign": draw(st.sampled_from(("pos", "neg", "mixed"))), "extr": draw(st.booleans()),
+                    "reduction": draw(st.sampled_from((None, "none", "sum", "norm"))),
+                    "dtype": draw(_dtype), "seed": draw(_seed)}
+        return s()
+
+    def oracle(self, case, rec):
+        dtype, N = case["dtype"], case["N"]
+        full, pb, kb, kbp, tb = (list(case[x]) for x in ("batch", "pb", "kb", "kb_p2p", "tb"))
+        eps = _eps(dtype)
+        rs = np.random.RandomState(case["seed"])
+        td = tu.TD[dtype]
+
+        def intr(shape):
+            """intrinsics of batch shape `shape`: the case's fx.. for item 0, random sign-preserving variations for the others"""
+            n = int(np.prod(shape)) if shape else 1
+            K = np.zeros((n, 3, 3))
+            for i in range(n):
+                f = 1.0 if i == 0 else 10.0 ** rs.uniform(-0.5, 0.5)
+                K[i] = [[case["fx"] * f, 0, case["cx"] + (0 if i == 0 else rs.uniform(-50, 50))],
+                        [0, case["fy"] / f, case["cy"] + (0 if i == 0 else rs.uniform(-50, 50))], [0, 0, 1]]
+            return _rnd(K, dtype).reshape(list(shape) + [3, 3])
+
+        def campoints(shape):
+            n = int(np.prod(shape)) if shape else 1
+            z = 10.0 ** rs.uniform(-2, 2, size=(n, N))
+            sg = {"pos": np.ones((n, N)), "neg": -np.ones((n, N)), "mixed": rs.choice([-1.0, 1.0], size=(n, N))}[case["zsign"]]
+            xy = rs.randn(n, N, 2) * 10.0 ** rs.uniform(-2, 2)
+            return _rnd(np.concatenate([xy, (z * sg)[..., None]], -1), dtype).reshape(list(shape) + [N, 3])
+
+        neg = case["fx"] < 0 or case["fy"] < 0 or case["zsign"] != "pos"
+        rec.label(dtype, "rank%d" % len(full), "z_" + case["zsign"], "fx<0" if case["fx"] < 0 else "fx>0", "fy<0" if case["fy"] < 0 else "fy>0",
+                  "extr" if case["extr"] else "noextr", "K_batched" if kb else "K_single", "p2pK_batched" if kbp else "p2pK_single")
+        if neg:
+            rec.nt(("cam", dtype, case["fx"] < 0, case["fy"] < 0, case["zsign"], case["extr"], len(full), len(pb), len(kb), len(kbp), len(tb),
+                    _sizeclass(N), int(math.log10(abs(case["fx"])) // 2), case["cx"] == 0))
+
+        # ---- (a) round trips in the camera frame (no extrinsics) --------------------------------------
+        Kp = intr(kbp)
+        bshape = list(np.broadcast_shapes(tuple(full), tuple(kbp)))
+        P = campoints(bshape)
+        fx, fy, cx, cy = (np.broadcast_to(Kp[..., i, j].reshape(list(Kp.shape[:-2]) + [1]), bshape + [N])
+                          for i, j in ((0, 0), (1, 1), (0, 2), (1, 2)))
+        tP, tK = _t(P, dtype), _t(Kp, dtype)
+        with rec.sut("point2pixel"):
+            px = pp.point2pixel(tP, tK)
+        if not rec.check(tuple(px.shape) == tuple(bshape + [N, 2]) and px.dtype == td, "cam:p2p_shape", "point2pixel shape %s, expected %s" % (
+                tuple(px.shape), bshape + [N, 2])):
+            return
+        with rec.sut("pixel2point" + (":batchedK" if kbp else "")):
+            back = pp.pixel2point(px, tP[..., 2], tK)
+        if not rec.check(tuple(back.shape) == tuple(bshape + [N, 3]) and back.dtype == td, "cam:pixel2point_shape" + (":batchedK" if kbp else ""),
+                         "pixel2point shape %s, expected %s" % (tuple(back.shape), bshape + [N, 3])):
+            return
+        Bn = tu.npy(back)
+        sx = np.abs(P[..., 0]) + np.abs(cx * P[..., 2] / fx)
+        sy = np.abs(P[..., 1]) + np.abs(cy * P[..., 2] / fy)
+        r1 = max(float((np.abs(Bn[..., 0] - P[..., 0]) / (16 * eps * sx + 1e-300)).max()),
+                 float((np.abs(Bn[..., 1] - P[..., 1]) / (16 * eps * sy + 1e-300)).max()))
+        rec.notes["p->px->p"] = r1
+        rec.check(r1 <= 1.0, "cam:roundtrip_point" + (":batchedK" if kbp else ""), lambda: "pixel2point(point2pixel(P,K), z, K) differs from P by "
+                  "%.3g x tolerance (fx=%r fy=%r cx=%r cy=%r)" % (r1, case["fx"], case["fy"], case["cx"], case["cy"]))
+        rec.check(np.array_equal(Bn[..., 2], P[..., 2]), "cam:depth", "pixel2point does not return the given depth as z")
+        # pinhole definition
+        pref = C.project(P, fx, fy, cx, cy)
+        tolu = 8 * eps * (np.abs(fx * P[..., 0] / P[..., 2]) + np.abs(cx)) + 1e-300
+        tolv = 8 * eps * (np.abs(fy * P[..., 1] / P[..., 2]) + np.abs(cy)) + 1e-300
+        pxn = tu.npy(px)
+        r0 = max(float((np.abs(pxn[..., 0] - pref[..., 0]) / tolu).max()), float((np.abs(pxn[..., 1] - pref[..., 1]) / tolv).max()))
+        rec.notes["pinhole"] = r0
+        rec.check(r0 <= 1.0, "cam:pinhole", lambda: "point2pixel(P,K) differs from (fx X/Z + cx, fy Y/Z + cy) by %.3g x tolerance" % r0)
+        # converse: arbitrary pixels and depths
+        Q = campoints(bshape)
+        upx = _rnd(C.project(Q, fx, fy, cx, cy) + rs.randn(*(bshape + [N, 2])) * 3.0, dtype)
+        depth = Q[..., 2]
+        with rec.sut("pixel2point" + (":batchedK" if kbp else "")):
+            pts3 = pp.pixel2point(_t(upx, dtype), _t(depth, dtype), tK)
+        with rec.sut("point2pixel"):
+            px2 = tu.npy(pp.point2pixel(pts3, tK))
+        su = 16 * eps * (np.abs(upx[..., 0] - cx) + np.abs(cx)) + 1e-300
+        sv = 16 * eps * (np.abs(upx[..., 1] - cy) + np.abs(cy)) + 1e-300
+        r2 = max(float((np.abs(px2[..., 0] - upx[..., 0]) / su).max()), float((np.abs(px2[..., 1] - upx[..., 1]) / sv).max()))
+        rec.notes["px->p->px"] = r2
+        rec.check(r2 <= 1.0, "cam:roundtrip_pixel" + (":batchedK" if kbp else ""), lambda: "point2pixel(pixel2point(px, z, K), K) differs from px "
+                  "by %.3g x tolerance (fx=%r fy=%r cx=%r cy=%r)" % (r2, case["fx"], case["fy"], case["cx"], case["cy"]))
+        bp = C.backproject(upx, depth, fx, fy, cx, cy)
+        tb3 = 8 * eps * np.abs(bp) + 8 * eps * np.abs(np.stack([cx * depth / fx, cy * depth / fy, 0 * depth], -1)) + 1e-300
+        r3 = float((np.abs(tu.npy(pts3) - bp) / tb3).max())
+        rec.notes["backproject"] = r3
+        rec.check(r3 <= 1.0, "cam:backproject" + (":batchedK" if kbp else ""), lambda: "pixel2point differs from ((u-cx) z/fx, (v-cy) z/fy, z) "
+                  "by %.3g x tolerance" % r3)
+
+        # ---- (b) world frame: projection through SE3 extrinsics and reprojerr == 0 --------------------
+        K = intr(kb)
+        Tb = tb if case["extr"] else []
+        nT = int(np.prod(Tb)) if Tb else 1
+        q = rs.randn(nT, 4)
+        q /= np.linalg.norm(q, axis=1, keepdims=True)
+        T = _rnd(np.concatenate([rs.randn(nT, 3) * 10.0 ** rs.uniform(-1, 1), q], 1), dtype).reshape(Tb + [7])
+        wshape = list(np.broadcast_shapes(tuple(pb), tuple(kb), tuple(Tb)))
+
+        def bc(a, bs, tail):
+            """broadcast an array of batch shape bs (+ tail dims) to the batch shape wshape"""
+            return np.broadcast_to(a.reshape([1] * (len(wshape) - len(bs)) + list(a.shape)), wshape + tail)
+
+        if case["extr"]:
+            Mf = bc(np.array([R.mat4("SE3", t) for t in T.reshape(nT, 7)]).reshape(Tb + [4, 4]), Tb, [4, 4])
+            if pb == wshape:                                    # aim: wanted camera-frame points (depth away from 0) -> world
+                Pcw = campoints(wshape)
+                Pw = _rnd(np.einsum("...ji,...nj->...ni", Mf[..., :3, :3], Pcw - Mf[..., None, :3, 3]), dtype)
+            else:                                               # points shared by several cameras: generic world points
+                Pw = _rnd(rs.randn(*(pb + [N, 3])) * 3.0, dtype)
+        else:
+            Pw = campoints(pb)
+        tPw, tKk = _t(Pw, dtype), _t(K, dtype)
+        tT = pp.SE3(_t(T, dtype)) if case["extr"] else None
+        with rec.sut("point2pixel+extrinsics"):
+            pxw = pp.point2pixel(tPw, tKk, tT) if case["extr"] else pp.point2pixel(tPw, tKk)
+        if not rec.check(tuple(pxw.shape) == tuple(wshape + [N, 2]), "cam:p2p_shape", "point2pixel shape %s, expected %s (points %s K %s T %s)" % (
+                tuple(pxw.shape), wshape + [N, 2], pb, kb, Tb)):
+            return
+        # reference projection with a forward error bound
+        Pwf, Kf = bc(Pw, pb, [N, 3]), bc(K, kb, [3, 3])
+        if case["extr"]:
+            Pcam = np.einsum("...ij,...nj->...ni", Mf[..., :3, :3], Pwf) + Mf[..., None, :3, 3]
+            dl = 16 * eps * (2 * np.linalg.norm(Pwf, axis=-1) + np.abs(Mf[..., None, :3, 3]).max(-1))      # error of T*p per coordinate
+        else:
+            Pcam, dl = Pwf, np.zeros(wshape + [N])
+        fxw, fyw, cxw, cyw = (Kf[..., i, j][..., None] for i, j in ((0, 0), (1, 1), (0, 2), (1, 2)))
+        X, Y, Z = Pcam[..., 0], Pcam[..., 1], Pcam[..., 2]
+        well = np.abs(Z) > 64 * dl                              # depth not dominated by the rounding of T*p
+        prw = C.project(Pcam, fxw, fyw, cxw, cyw)
+        az = np.abs(Z) + 1e-300
+        tu_ = 8 * eps * (np.abs(fxw * X) / az + np.abs(cxw)) + 2 * dl * (np.abs(fxw) / az + np.abs(fxw * X) / az ** 2) + 1e-300
+        tv_ = 8 * eps * (np.abs(fyw * Y) / az + np.abs(cyw)) + 2 * dl * (np.abs(fyw) / az + np.abs(fyw * Y) / az ** 2) + 1e-300
+        pw = tu.npy(pxw)
+        if well.any():
+            r4 = max(float((np.abs(pw[..., 0] - prw[..., 0]) / tu_)[well].max()), float((np.abs(pw[..., 1] - prw[..., 1]) / tv_)[well].max()))
+            rec.notes["pinhole_extr"] = r4
+            rec.check(r4 <= 1.0, "cam:pinhole_extrinsics", lambda: "point2pixel(P,K,T) differs from the pinhole projection of T*P by %.3g x tolerance" % r4)
+        if not well.all():
+            rec.label("cam:some_depth_near_zero")
+        red = case["reduction"]
+        with rec.sut("reprojerr"):
+            args = (tPw, pxw, tKk) + ((tT,) if case["extr"] else ())
+            err = pp.reprojerr(*args) if red is None else pp.reprojerr(*args, reduction=red)
+        eshape = wshape + ([N] if red in ("sum", "norm") else [N, 2])
+        if not rec.check(tuple(err.shape) == tuple(eshape), "cam:reprojerr_shape", "reprojerr(%s) shape %s, expected %s" % (red, tuple(err.shape), eshape)):
+            return
+        finite = np.isfinite(pw).all()
+        if finite:
+            rec.check(bool((err == 0).all()), "cam:reprojerr_zero:" + str(red), lambda: "reprojerr(P, point2pixel(P,K,T), K, T, reduction=%s) is "
+                      "not exactly zero: max |err| = %.3g" % (red, float(err.abs().max())))
+        else:
+            rec.label("cam:nonfinite_pixels")
+        # and it is not identically zero: shifted pixels give the shift back
+        shift = _rnd(rs.choice([-1.0, 1.0], size=wshape + [N, 2]) * 2.0 ** rs.randint(-2, 6), dtype)
+        with rec.sut("reprojerr"):
+            e2 = pp.reprojerr(tPw, pxw + _t(shift, dtype), tKk, *((tT,) if case["extr"] else ()))
+        if finite:
+            tol = 4 * eps * (np.abs(pw) + np.abs(shift))
+            rec.check(np.all(np.abs(tu.npy(e2) + shift) <= tol), "cam:reprojerr_shift", "reprojerr(P, px + s) is not -s")
+
+    def simplify(self, case):
+        for key in ("batch", "pb", "kb", "kb_p2p", "tb"):
+            if case[key]:
+                yield dict(case, batch=[], pb=[], kb=[], kb_p2p=[], tb=[])
+                break
+        if case["N"] > 1:
+            yield dict(case, N=1)
+            yield dict(case, N=case["N"] // 2)
+        if case["extr"]:
+            yield dict(case, extr=False)
+        if case["dtype"] == "float32":
+            yield dict(case, dtype="float64")
+        if case["reduction"] is not None:
+            yield dict(case, reduction=None)
+        if case["zsign"] != "pos":
+            yield dict(case, zsign="pos")
+
+
+KNOWN = {F15_KEY: {
+    "probe": ("camera", {"batch": [2], "pb": [2], "kb": [2], "kb_p2p": [2], "tb": [], "N": 3, "fx": 2.0, "fy": 3.0, "cx": 4.5, "cy": 3.5,
+                         "zsign": "pos", "extr": False, "reduction": None, "dtype": "float64", "seed": 0}),
+    "match": lambda sub, case, bucket: sub == "camera" and bool(case.get("kb_p2p")) and ("batchedK" in bucket or "pixel2point" in bucket)}}
+
+
+# =====================================================================================================
+class Homo(Sub):
+    name = "homo"
+    n = {"quick": 1600, "thorough": 30000}
+
+    def strategy(self, tier):
+        return st.fixed_dictionaries({
+            "shape": st.lists(st.integers(1, 4), min_size=0, max_size=3), "D": st.integers(1, 6),
+            "regime": st.sampled_from(("unit", "wide", "extreme", "special", "int")),
+            "dtype": st.sampled_from(("float64", "float32")), "seed": _seed})
+
+    def oracle(self, case, rec):
+        dtype, shape, D = case["dtype"], list(case["shape"]), case["D"]
+        rs = np.random.RandomState(case["seed"])
+        fi = np.finfo(np.float32 if dtype == "float32" else np.float64)
+        full = shape + [D]
+        if case["regime"] == "unit":
+            p = rs.randn(*full)
+        elif case["regime"] == "wide":
+            p = rs.randn(*full) * 10.0 ** rs.uniform(-6, 6, size=full)
+        elif case["regime"] == "extreme":
+            lim = math.log10(float(fi.max)) - 0.5
+            p = rs.choice([-1.0, 1.0], size=full) * 10.0 ** rs.uniform(-lim - 6, lim, size=full)     # includes subnormals
+        elif case["regime"] == "int":
+            p = rs.randint(-5, 6, size=full).astype(np.float64)
+        else:
+            p = rs.choice([0.0, -0.0, float(fi.tiny), float(fi.max), -float(fi.max), float(fi.eps), 1.0, -1.0,
+                           float(fi.tiny) / 8, 1.0 + float(fi.eps)], size=full)
+        with np.errstate(over="ignore", under="ignore"):
+            p = _rnd(p, dtype)
+        p = np.where(np.isfinite(p), p, 1.0)
+        t = _t(p, dtype)
+        rec.label(dtype, case["regime"], "rank%d" % len(shape))
+        rec.nt(("homo", dtype, case["regime"], len(shape), D))
+        with rec.sut("cart2homo/homo2cart"):
+            h = pp.cart2homo(t)
+            c = pp.homo2cart(h)
+        if not rec.check(tuple(h.shape) == tuple(shape + [D + 1]) and h.dtype == t.dtype, "homo:shape", "cart2homo shape %s dtype %s" % (tuple(h.shape), h.dtype)):
+            return
+        rec.check(torch.equal(h[..., :-1], t) and bool((h[..., -1] == 1).all()), "homo:cart2homo", "cart2homo(p) is not [p, 1]")
+        if not rec.check(tuple(c.shape) == tuple(full) and c.dtype == t.dtype, "homo:shape", "homo2cart shape %s dtype %s" % (tuple(c.shape), c.dtype)):
+            return
+        rec.check(torch.equal(c, t), "homo:roundtrip", lambda: "homo2cart(cart2homo(p)) != p exactly: max |diff| %.3g" % float((c - t).abs().max()))
+
+    def simplify(self, case):
+        if case["shape"]:
+            yield dict(case, shape=case["shape"][1:])
+        if case["D"] > 1:
+            yield dict(case, D=1)
+        if case["regime"] != "unit":
+            yield dict(case, regime="unit")
+
+
+SUBS = [Knn(), NbrFilter(), Voxel(), KnnFilter(), RandomFilter(), Camera(), Homo()]
+
+
+def selftest():
+    """the reference model against a second (loop-based) formulation and the docstring examples"""
+    rs = np.random.RandomState(7)
+    for o in (1, 2, C.INF):
+        A, Bm = rs.randn(7, 3), rs.randn(9, 3)
+        v, i = C.knn(C.pdist(A, Bm, o), 4)
+        v2, i2 = C.knn_loops(A, Bm, 4, o)
+        assert np.allclose(v, v2, rtol=1e-14, atol=0) and np.array_equal(i, i2), "knn reference vs loops (ord %s)" % o
+    ref = np.array([[9., 2, 2], [1, 0, 2], [0, 1, 1], [5, 0, 1], [1, 0, 1], [5, 5, 3]])
+    nb = np.array([[1., 0, 1], [1, 6, 2], [5, 1, 0], [9, 0, 2]])
+    v, i = C.knn(C.pdist(ref, nb, 2), 2)
+    assert i.tolist() == [[3, 2], [0, 2], [0, 2], [2, 0], [0, 2], [1, 2]]
+    assert np.allclose(v[:, 0], [2, 1, 2 ** .5, 2 ** .5, 0, 18 ** .5])
+    pts = np.array([[0., 0, 0], [1, 0, 0], [0, 1, 0], [0, 1, 1], [10, 1, 1], [10, 1, 10]])
+    assert C.nbr_mask(pts, 2, 5.0).tolist() == [True] * 4 + [False] * 2
+    assert C.nbr_mask(pts, 2, 12.0).tolist() == [True] * 5 + [False]
+    assert C.nbr_mask(pts[:, :2], 2, 10.0).tolist() == [True] * 6
+    kf = C.knn_filter(pts, 2, 3, 5.0)
+    want = np.array([[1, 1, 0], [1, 1, 0], [0, 2, 1], [0, 2, 1]]) / 3.0
+    assert kf["mask"].tolist() == [True] * 4 + [False] * 2 and np.allclose(kf["A"], want) and np.allclose(kf["B"], want)
+    # readings A and B differ when a removed point is among the k nearest of a retained one
+    line = np.array([[0.], [1.], [2.], [3.4], [9.]])
+    kf = C.knn_filter(line, 2, 1, 2.1)          # retained: 0,1,2 ; point 3 has one neighbour (2) within 2.1
+    assert kf["mask"].tolist() == [True, True, True, False, False]
+    assert np.allclose(kf["A"][:, 0], [1.0, 1.0, (2 + 1 + 3.4) / 3]) and np.allclose(kf["B"][:, 0], [1.0, 1.0, 1.0])
+    kf = C.knn_filter(line, 1, 1, 1.2)          # retained 0,1,2 with k=1
+    assert kf["B"] is not None
+    kf = C.knn_filter(np.array([[0.], [1.], [1.9], [5.]]), 2, 1, 1.0)       # only the middle point has 2 within 1.0
+    assert kf["mask"].tolist() == [False, True, False, False] and kf["B"] is None and np.allclose(kf["A"], [[2.9 / 3]])
+    vp = np.array([[1., 2, 3], [4, 5, 6], [7, 8, 9], [10, 11, 12], [13, 14, 15]])
+    g = C.voxel_groups(vp, [5., 5, 5])
+    assert sorted(g.values()) == [[0, 1], [2, 3], [4]]
+    assert sorted(C.voxel_groups(vp[:, :1], [5.]).values()) == [[0, 1], [2, 3], [4]]
+    K = (2.0, 2.0, 4.5, 4.5)
+    obj = np.array([[2., 0, 2], [1, 0, 2], [0, 1, 1], [0, 0, 1], [1, 0, 1], [5, 5, 3]])
+    px = C.project(obj, *K)
+    assert np.allclose(px, [[6.5, 4.5], [5.5, 4.5], [4.5, 6.5], [4.5, 4.5], [6.5, 4.5], [7.8333, 7.8333]], atol=1e-4)
+    assert np.allclose(C.backproject(px, obj[:, 2], *K), obj)
+    assert np.allclose(C.backproject(np.array([[0.5, 0.0], [5.0, 1.5]]), np.array([5.0, 0.7]), *K), [[-10, -11.25, 5], [0.175, -1.05, 0.7]])
+    # the radius picker never returns a radius close to a pairwise distance; voxel construction agrees with floor()
+    for sd in range(20):
+        r2 = np.random.RandomState(sd)
+        P, _ = make_cloud(r2, 2 + sd, 1 + sd % 3, 0, sd % 4, "random", "float32" if sd % 2 else "float64")
+        d = C.pdist(P, P, 2)
+        for mode in ("kth", "pair", "below", "above"):
+            rad = pick_radius(d, 1 + sd % 3, mode, sd / 20.0, 1e-5)
+            assert C.radius_is_safe(d, rad, 1e-5), "unsafe radius"
+        case = {"N": 3 + sd, "M": 1 + sd // 2, "voxel": [0.37, 12.5][: 1 + sd % 2], "extra": sd % 3, "grid": False, "dtype": "float32", "seed": sd}
+        pv, cells = make_voxel_cloud(r2, case)
+        assert np.array_equal(C.voxel_cells(pv[:, :len(case["voxel"])], case["voxel"]), cells)
